@@ -12,11 +12,10 @@ echo "demo file: $demo"
 ( cd $S/with && go build ./... ) && echo "build: ok" || { echo "BUILD FAILS"; exit 1; }
 ( cd $S/with && go test -vet=off -count=1 ./... 2>&1 | tail -4 )
 cp $WT/$demo $S/with/$demo; cp $WT/$demo $S/base/$demo
+DEMO=$demo
 pkg=./$(dirname $demo)
 echo "--- demo WITH change (must fail):"; ( cd $S/with && go test -vet=off -count=1 -run 'Demo' $pkg 2>&1 | tail -4 )
 echo "--- demo on BASE (must pass):";    ( cd $S/base && go test -vet=off -count=1 -run 'Demo' $pkg 2>&1 | tail -3 )
+echo "--- checks against the change (on the scratch copy):"
+for p in ${3:-$ID}; do ( cd /verif && timeout 1500 bin/govc -repo $S/with -prop $p -no-evidence -work $S/work 2>&1 | grep "^govc\|^   \[" | cut -c1-230 | head -8 ); done
 rm -rf $S
-echo "--- checks against the change:"
-git -C /repo apply $WT/patch.diff || { echo "cannot apply to /repo"; exit 1; }
-for p in ${3:-$ID}; do ( cd /verif && timeout 1500 bin/govc -prop $p -no-evidence 2>&1 | grep "^govc\|^   \[" | cut -c1-230 | head -8 ); done
-git -C /repo checkout -- . ; git -C /repo status --short | head -3
